@@ -2,5 +2,5 @@
 From Coq Require Import ZArith QArith List Bool ExtrOcamlBasic.
 Require Import SP.Model.Sched SP.Model.SchedIO SP.Model.Ledger SP.Model.Alap SP.Model.SubSlot SP.Model.SubSlotTeam.
 Extraction Language OCaml.
-Extraction "Extract/ocaml/sched.ml" mk_resource mk_resource_cal mk_limit all_results all_bookings schedule dates alap_results alap_bookings sall_results tall_results Qred
+Extraction "Extract/ocaml/sched.ml" mk_resource mk_resource_cal mk_limit all_results all_bookings schedule dates alap_results alap_bookings sall_results tall_results mk_slimit Qred
   Ledger.run Ledger.step Ledger.empty.
